@@ -1,7 +1,191 @@
-(* C06 placeholder: theorems land with Proofs/WorldProofs.v *)
-From Coq Require Import ZArith List.
-From V Require Import Result World.
+(* C06 -- byte_intervals_on/at on a section, module or IR and sections_on/at on a module or IR return exactly the
+   members a scan of the current structure selects, each once ('on': address known, size non-zero, range intersects;
+   'at': address is a member of the query range); a section's address and size are None unless it has at least one
+   interval and all have addresses, and otherwise the lowest interval address and the distance to the highest end.
+   Model: Model/World.v (the section's lazy interval tree, force, sec_bis_on / sec_bis_at, mod_lift, ir_lift,
+   sec_extent, sections_on / sections_at), Model/LazyTree.v, Model/WorldGuard.v.
+   Invariants: Forest, SyncAll, NonNeg (parts of WorldInv.InvAll).
+   Only property theorems here; proofs in Proofs/LookupBase.v, LookupProofs.v, ScheduleProofs.v, WorldInv.v,
+   WorldProps.v. *)
+From Coq Require Import ZArith List Bool.
+From V Require Import Result LazyTree World WorldGuard WorldRun ForestDefs InvDefs WorldInv WorldProps.
+From V Require Import LookupBase LookupProofs ScheduleProofs.
 Import ListNotations.
-Theorem C06_new_detached : forall w n k u a s f nm p, par (step' w (ONew n k u a s f nm p)) n = None.
-Proof. intros. unfold step', step, par, getn. destruct k; cbn; unfold upd; rewrite Z.eqb_refl; reflexivity. Qed.
-Print Assumptions C06_new_detached.
+Open Scope Z_scope.
+
+(* 'on': on_spec a size q = true <-> 0 < size /\ max (qstart q) a < min (qstop q) (a + size) *)
+Theorem C06_on_criterion : forall lo size q, on_spec lo size q = true <->
+  0 < size /\ Z.max (qstart q) lo < Z.min (qstop q) (lo + size).
+Proof. exact on_spec_true. Qed.
+
+(* ---------- byte_intervals_on / byte_intervals_at ---------- *)
+
+Theorem C06_sec_bis_on_exact : forall w known s q, reachable_k w known -> kindof w s = KSec ->
+  NoDup (snd (sec_bis_on w s q)) /\
+  forall bi, In bi (snd (sec_bis_on w s q)) <->
+    In bi (kids w s) /\ exists a, naddr (getn w bi) = Some a /\ on_spec a (nsize (getn w bi)) q = true.
+Proof. intros w known s q R. exact (sec_bis_on_exact w s q (reach_sync w known R) (reach_nonneg w known R)). Qed.
+
+Theorem C06_sec_bis_at_exact : forall w known s q, reachable_k w known -> kindof w s = KSec ->
+  NoDup (snd (sec_bis_at w s q)) /\
+  forall bi, In bi (snd (sec_bis_at w s q)) <->
+    In bi (kids w s) /\ exists a, naddr (getn w bi) = Some a /\ in_q a q = true.
+Proof. intros w known s q R. exact (sec_bis_at_exact w s q (reach_sync w known R) (reach_nonneg w known R)). Qed.
+
+Theorem C06_mod_bis_on_exact : forall w known m q, reachable_k w known ->
+  (GoodK known (fst (mod_lift sec_bis_on w m q)) /\ agree w (fst (mod_lift sec_bis_on w m q))) /\
+  NoDup (snd (mod_lift sec_bis_on w m q)) /\
+  forall bi, In bi (snd (mod_lift sec_bis_on w m q)) <->
+    exists s, In s (secs_of w m) /\ In bi (kids w s) /\
+      exists a, naddr (getn w bi) = Some a /\ on_spec a (nsize (getn w bi)) q = true.
+Proof. intros w known m q R. exact (mod_bis_on_exact known w m q (reach_goodk w known R)). Qed.
+
+Theorem C06_mod_bis_at_exact : forall w known m q, reachable_k w known ->
+  (GoodK known (fst (mod_lift sec_bis_at w m q)) /\ agree w (fst (mod_lift sec_bis_at w m q))) /\
+  NoDup (snd (mod_lift sec_bis_at w m q)) /\
+  forall bi, In bi (snd (mod_lift sec_bis_at w m q)) <->
+    exists s, In s (secs_of w m) /\ In bi (kids w s) /\
+      exists a, naddr (getn w bi) = Some a /\ in_q a q = true.
+Proof. intros w known m q R. exact (mod_bis_at_exact known w m q (reach_goodk w known R)). Qed.
+
+Theorem C06_ir_bis_on_exact : forall w known ir q, reachable_k w known ->
+  (GoodK known (fst (ir_lift sec_bis_on w ir q)) /\ agree w (fst (ir_lift sec_bis_on w ir q))) /\
+  NoDup (snd (ir_lift sec_bis_on w ir q)) /\
+  forall bi, In bi (snd (ir_lift sec_bis_on w ir q)) <->
+    exists m, In m (kids w ir) /\ exists s, In s (secs_of w m) /\ In bi (kids w s) /\
+      exists a, naddr (getn w bi) = Some a /\ on_spec a (nsize (getn w bi)) q = true.
+Proof. intros w known ir q R. exact (ir_bis_on_exact known w ir q (reach_goodk w known R)). Qed.
+
+Theorem C06_ir_bis_at_exact : forall w known ir q, reachable_k w known ->
+  (GoodK known (fst (ir_lift sec_bis_at w ir q)) /\ agree w (fst (ir_lift sec_bis_at w ir q))) /\
+  NoDup (snd (ir_lift sec_bis_at w ir q)) /\
+  forall bi, In bi (snd (ir_lift sec_bis_at w ir q)) <->
+    exists m, In m (kids w ir) /\ exists s, In s (secs_of w m) /\ In bi (kids w s) /\
+      exists a, naddr (getn w bi) = Some a /\ in_q a q = true.
+Proof. intros w known ir q R. exact (ir_bis_at_exact known w ir q (reach_goodk w known R)). Qed.
+
+(* secs_of w m: the module's children of kind section *)
+Theorem C06_secs_of : forall w m s, In s (secs_of w m) <-> In s (kids w m) /\ kindof w s = KSec.
+Proof. exact secs_of_In. Qed.
+
+(* ---------- Section.address / Section.size ---------- *)
+
+(* the lazily computed extent is the function ext_pure of the current structure ... *)
+Theorem C06_sec_extent_exact : forall w known s, reachable_k w known -> kindof w s = KSec ->
+  snd (sec_extent w s) = ext_pure w s.
+Proof. intros w known s R. exact (sec_extent_exact w known s (reach_forest w known R) (reach_sync w known R)). Qed.
+
+(* ... which is (address, size) exactly when there is an interval and all intervals have addresses: then the address
+   is the lowest interval address and address + size the highest interval end ... *)
+Theorem C06_extent_some : forall w s lo sz, ext_pure w s = Some (lo, sz) ->
+  kids w s <> [] /\ (forall bi, In bi (kids w s) -> naddr (getn w bi) <> None) /\
+  (exists bi, In bi (kids w s) /\ naddr (getn w bi) = Some lo) /\
+  (forall bi a, In bi (kids w s) -> naddr (getn w bi) = Some a -> lo <= a) /\
+  (exists bi a, In bi (kids w s) /\ naddr (getn w bi) = Some a /\ a + nsize (getn w bi) = lo + sz) /\
+  (forall bi a, In bi (kids w s) -> naddr (getn w bi) = Some a -> a + nsize (getn w bi) <= lo + sz).
+Proof. exact ext_pure_Some. Qed.
+
+(* ... and None exactly otherwise *)
+Theorem C06_extent_none : forall w s, ext_pure w s = None <->
+  kids w s = [] \/ exists bi, In bi (kids w s) /\ naddr (getn w bi) = None.
+Proof. exact ext_pure_None. Qed.
+
+(* ---------- sections_on / sections_at (module and IR) ---------- *)
+
+Theorem C06_sections_on_exact : forall w known secs q, reachable_k w known -> NoDup secs ->
+  (forall s, In s secs -> kindof w s = KSec) ->
+  NoDup (snd (sections_on w secs q)) /\
+  forall s, In s (snd (sections_on w secs q)) <->
+    In s secs /\ exists a sz, ext_pure w s = Some (a, sz) /\
+      (Z.max (qstart q) a <? Z.min (qstop q) (a + sz)) = true.
+Proof. intros w known secs q R. exact (sections_on_exact known w secs q (reach_goodk w known R)). Qed.
+
+Theorem C06_sections_at_exact : forall w known secs q, reachable_k w known -> NoDup secs ->
+  (forall s, In s secs -> kindof w s = KSec) ->
+  NoDup (snd (sections_at w secs q)) /\
+  forall s, In s (snd (sections_at w secs q)) <->
+    In s secs /\ exists a sz, ext_pure w s = Some (a, sz) /\ in_q a q = true.
+Proof. intros w known secs q R. exact (sections_at_exact known w secs q (reach_goodk w known R)). Qed.
+
+Theorem C06_mod_sections_on_exact : forall w known m q, reachable_k w known ->
+  NoDup (snd (sections_on w (secs_of w m) q)) /\
+  forall s, In s (snd (sections_on w (secs_of w m) q)) <->
+    In s (secs_of w m) /\ exists a sz, ext_pure w s = Some (a, sz) /\
+      (Z.max (qstart q) a <? Z.min (qstop q) (a + sz)) = true.
+Proof. intros w known m q R. exact (mod_sections_on_exact w known m q (reach_goodk w known R)). Qed.
+
+Theorem C06_mod_sections_at_exact : forall w known m q, reachable_k w known ->
+  NoDup (snd (sections_at w (secs_of w m) q)) /\
+  forall s, In s (snd (sections_at w (secs_of w m) q)) <->
+    In s (secs_of w m) /\ exists a sz, ext_pure w s = Some (a, sz) /\ in_q a q = true.
+Proof. intros w known m q R. exact (mod_sections_at_exact w known m q (reach_goodk w known R)). Qed.
+
+Theorem C06_ir_sections_on_exact : forall w known ir q, reachable_k w known ->
+  NoDup (snd (sections_on w (flat_map (secs_of w) (mods_of w ir)) q)) /\
+  forall s, In s (snd (sections_on w (flat_map (secs_of w) (mods_of w ir)) q)) <->
+    In s (flat_map (secs_of w) (mods_of w ir)) /\ exists a sz, ext_pure w s = Some (a, sz) /\
+      (Z.max (qstart q) a <? Z.min (qstop q) (a + sz)) = true.
+Proof. intros w known ir q R. exact (ir_sections_on_exact w known ir q (reach_goodk w known R)). Qed.
+
+Theorem C06_ir_sections_at_exact : forall w known ir q, reachable_k w known ->
+  NoDup (snd (sections_at w (flat_map (secs_of w) (mods_of w ir)) q)) /\
+  forall s, In s (snd (sections_at w (flat_map (secs_of w) (mods_of w ir)) q)) <->
+    In s (flat_map (secs_of w) (mods_of w ir)) /\ exists a sz, ext_pure w s = Some (a, sz) /\ in_q a q = true.
+Proof. intros w known ir q R. exact (ir_sections_at_exact w known ir q (reach_goodk w known R)). Qed.
+
+Theorem C06_ir_secs : forall w ir s, In s (flat_map (secs_of w) (mods_of w ir)) <->
+  exists m, In m (kids w ir) /\ In s (kids w m) /\ kindof w s = KSec.
+Proof. exact ir_secs_In. Qed.
+
+(* non-vacuity: IR 1 > module 2 > sections 3 and 4; intervals 5 (100, size 50), 6 (120, size 100), 7 (300, size 0)
+   in section 3 and 8 (400, size 16) in section 4; both section indexes are forced.  Then: address of 5 := 10, size of
+   6 := 5, address of 7 := None (state wm), index forced, address of 7 := 0, 8 moved into section 3, 5 discarded
+   (state wb); finally address of 6 := None (state wc). *)
+Example C06_example :
+  let Q a b s := {| qstart := a; qstop := b; qstep := s |} in
+  let ops1 := [ONew 1 KIR 101 None 0 0 0 PNone; ONew 2 KMod 102 None 0 0 0 PNone; ONew 3 KSec 103 None 0 0 0 PNone;
+     ONew 4 KSec 104 None 0 0 0 PNone;
+     ONew 5 KBI 105 (Some 100) 50 0 0 PNone; ONew 6 KBI 106 (Some 120) 100 0 0 PNone; ONew 7 KBI 107 (Some 300) 0 0 0 PNone;
+     ONew 8 KBI 108 (Some 400) 16 0 0 PNone;
+     OModAppend 1 2; OSet 2 [KSec] SUpdate [[3; 4]]; OSet 3 [KBI] SUpdate [[5; 6; 7]]; OSetParent 8 (Some 4);
+     OTouch 3; OTouch 4] in
+  let opsm := [OAttrAddr 5 (Some 10); OAttrSize 6 5; OAttrAddr 7 None] in
+  let ops2 := opsm ++ [OTouch 3; OAttrAddr 7 (Some 0); OSetParent 8 (Some 3); OSet 3 [KBI] SDiscard [[5]]] in
+  let ops3 := [OAttrAddr 6 None] in
+  let wa := fst (run_guarded w0 [] ops1) in
+  let wm := fst (run_guarded w0 [] (ops1 ++ opsm)) in
+  let wb := fst (run_guarded w0 [] (ops1 ++ ops2)) in
+  let wc := fst (run_guarded w0 [] (ops1 ++ ops2 ++ ops3)) in
+  all_guarded_ok w0 [] (ops1 ++ ops2 ++ ops3) = true /\
+  (snd (sec_extent wa 3), snd (sec_extent wa 4), snd (sec_bis_on wa 3 (Q 110 130 1)),
+   snd (sec_bis_at wa 3 (Q 100 301 20)), snd (sec_bis_on wa 3 (Q 290 310 1)))
+  = (Some (100, 200), Some (400, 16), [5; 6], [5; 6; 7], []) /\
+  (snd (sections_on wa (secs_of wa 2) (Q 0 1000 1)), snd (sections_at wa (flat_map (secs_of wa) (mods_of wa 1)) (Q 100 401 100)),
+   snd (ir_lift sec_bis_on wa 1 (Q 0 1000 1)), snd (mod_lift sec_bis_at wa 2 (Q 0 1000 1)))
+  = ([3; 4], [3; 4], [5; 6; 8], [5; 6; 7; 8]) /\
+  (snd (sec_extent wm 3), snd (sec_extent wb 3), snd (sec_extent wb 4), snd (sec_bis_on wb 3 (Q 0 1000 1)),
+   snd (sec_bis_at wb 3 (Q 0 1000 1)), snd (sections_on wb (secs_of wb 2) (Q 0 1000 1)))
+  = (None, Some (0, 416), None, [6; 8], [6; 7; 8], [3]) /\
+  (snd (sec_extent wc 3), snd (sec_bis_at wc 3 (Q 0 1000 1)), snd (sections_at wc (secs_of wc 2) (Q 0 1000 1)))
+  = (None, [7; 8], []).
+Proof. vm_compute. repeat split. Qed.
+
+Print Assumptions C06_on_criterion.
+Print Assumptions C06_sec_bis_on_exact.
+Print Assumptions C06_sec_bis_at_exact.
+Print Assumptions C06_mod_bis_on_exact.
+Print Assumptions C06_mod_bis_at_exact.
+Print Assumptions C06_ir_bis_on_exact.
+Print Assumptions C06_ir_bis_at_exact.
+Print Assumptions C06_secs_of.
+Print Assumptions C06_sec_extent_exact.
+Print Assumptions C06_extent_some.
+Print Assumptions C06_extent_none.
+Print Assumptions C06_sections_on_exact.
+Print Assumptions C06_sections_at_exact.
+Print Assumptions C06_mod_sections_on_exact.
+Print Assumptions C06_mod_sections_at_exact.
+Print Assumptions C06_ir_sections_on_exact.
+Print Assumptions C06_ir_sections_at_exact.
+Print Assumptions C06_ir_secs.
+Print Assumptions C06_example.
